@@ -343,4 +343,4 @@ def check(ctx):
     r2_sole_constructors(ctx)
 
 
-CLAUSE += '; the bytes of every BufferedBody construction derive from a read of the body'
+CLAUSE += ' Also: the bytes of every BufferedBody construction derive from a read of the body.'
